@@ -107,7 +107,8 @@ func c01(c *q.Ctx) {
 	// ---- block-level operations: one batch per block that also moves the pointer
 	ub := c.Fn(st + "(*State).procUndoBlkForWalk")
 	if ub != nil {
-		c.SameValueArgs(ub, map[string]int{"State.undoTxInternal": 2, "State.undoPayFee": 2, "Meta.UpdateNextIrreversibleBlockHeightForPrune": 4, "State.updateLatestBlockid": 2}, "one batch per undone block, shared by every step and by the pointer update", "undo of a block is atomic")
+		bvub := c.SameValueArgs(ub, map[string]int{"State.undoTxInternal": 2, "State.undoPayFee": 2, "Meta.UpdateNextIrreversibleBlockHeightForPrune": 4, "State.updateLatestBlockid": 2}, "one batch per undone block, shared by every step and by the pointer update", "undo of a block is atomic")
+		c.NoUseAfter(ub, bvub, "State.updateLatestBlockid", "updateLatestBlockid writes the batch; a step staged afterwards is never persisted")
 		c.ArgIs(ub, "State.updateLatestBlockid", 1, "p1[].PreHash", 1, "after undoing a block the pointer names its parent")
 		c.ArgIs(ub, "State.undoTxInternal", 1, "p1[].Transactions[#down]", 1, "transactions of a block are undone newest first")
 		c.ArgIs(ub, "State.undoPayFee", 1, "p1[].Transactions[#down]", 1, "fees are undone for the same transaction")
@@ -120,7 +121,8 @@ func c01(c *q.Ctx) {
 	}
 	tb := c.Fn(st + "(*State).procTodoBlkForWalk")
 	if tb != nil {
-		c.SameValueArgs(tb, map[string]int{"State.doTxInternal": 2, "State.payFee": 2, "Meta.UpdateNextIrreversibleBlockHeight": 4, "State.updateLatestBlockid": 2}, "one batch per replayed block, shared by every step and by the pointer update", "play of a block is atomic")
+		bvtb := c.SameValueArgs(tb, map[string]int{"State.doTxInternal": 2, "State.payFee": 2, "Meta.UpdateNextIrreversibleBlockHeight": 4, "State.updateLatestBlockid": 2}, "one batch per replayed block, shared by every step and by the pointer update", "play of a block is atomic")
+		c.NoUseAfter(tb, bvtb, "State.updateLatestBlockid", "updateLatestBlockid writes the batch; a step staged afterwards is never persisted")
 		c.ArgIs(tb, "State.updateLatestBlockid", 1, "p1[#down].Blockid", 1, "the todo list is tip-first: blocks are replayed oldest first and the pointer names the block just played")
 		c.ArgIs(tb, "State.doTxInternal", 1, "p1[#down].Transactions[]", 1, "every transaction of the block, in block order")
 		c.ArgIs(tb, "State.payFee", 1, "p1[#down].Transactions[]", 1, "fee for the same transaction")
@@ -131,7 +133,8 @@ func c01(c *q.Ctx) {
 	}
 	pr := c.Fn(st + "(*State).PlayAndRepost")
 	if pr != nil {
-		c.SameValueArgs(pr, map[string]int{"State.processUnconfirmTxs": 2, "State.doTxInternal": 2, "State.payFee": 2, "Meta.UpdateNextIrreversibleBlockHeight": 4, "State.updateLatestBlockid": 2}, "one batch per played block", "play of a block is atomic")
+		bvpr := c.SameValueArgs(pr, map[string]int{"State.processUnconfirmTxs": 2, "State.doTxInternal": 2, "State.payFee": 2, "Meta.UpdateNextIrreversibleBlockHeight": 4, "State.updateLatestBlockid": 2}, "one batch per played block", "play of a block is atomic")
+		c.NoUseAfter(pr, bvpr, "State.updateLatestBlockid", "updateLatestBlockid writes the batch; a step staged afterwards is never persisted")
 		c.ArgIs(pr, "State.updateLatestBlockid", 1, "*QueryBlock(*,p1)#0.Blockid", 1, "pointer names the played block")
 		c.Gate(pr, "State.doTxInternal", q.ToCall("State.updateLatestBlockid"), q.Opt{K1Only: true})
 		c.Gate(pr, "State.processUnconfirmTxs", q.ToCall("State.updateLatestBlockid"), q.Opt{})
@@ -139,7 +142,8 @@ func c01(c *q.Ctx) {
 	}
 	pm := c.Fn(st + "(*State).PlayForMiner")
 	if pm != nil {
-		c.SameValueArgs(pm, map[string]int{"State.doTxInternal": 2, "State.payFee": 2, "Meta.UpdateNextIrreversibleBlockHeight": 4, "State.updateLatestBlockid": 2}, "one batch per produced block", "play of a block is atomic")
+		bvpm := c.SameValueArgs(pm, map[string]int{"State.doTxInternal": 2, "State.payFee": 2, "Meta.UpdateNextIrreversibleBlockHeight": 4, "State.updateLatestBlockid": 2}, "one batch per produced block", "play of a block is atomic")
+		c.NoUseAfter(pm, bvpm, "State.updateLatestBlockid", "updateLatestBlockid writes the batch; a step staged afterwards is never persisted")
 		c.ArgIs(pm, "State.updateLatestBlockid", 1, "*QueryBlock(*,p1)#0.Blockid", 1, "pointer names the played block")
 		c.Guard(pm, q.Cond{Canon: "bytes.Equal(*QueryBlock(*,p1)#0.PreHash,p0.latestBlockid)", Sense: false}, q.ToCall("State.updateLatestBlockid"), q.Opt{})
 		c.Gate(pm, "State.doTxInternal", q.ToCall("State.updateLatestBlockid"), q.Opt{K1Only: true})
